@@ -70,10 +70,16 @@ def cases(tier, seed):
     for ex in ('contract', 'take_contract', 'storage', 'transport', 'multicommodity', 'plant', 'scaled_storage'):
         for pl in (('both_ends',) if tier != 'thorough' else ('both_ends', 'start', 'end')):
             out.append(('straddle_%s_%s' % (ex, pl), dict(kind='straddle', extra=ex, place=pl)))
+    # the problem of an asset with a window inside a longer horizon is the problem of the same asset on a horizon equal to the window
+    # (nothing outside the window matters; steps counted from the horizon start) -- discount rate 0
+    for ex in EXTRAS:
+        for w in (((2, 5),) if tier != 'thorough' else ((2, 5), (1, 3), (3, 4))):
+            out.append(('horizon_is_window_%s_%d_%d' % (ex, w[0], w[1]), dict(kind='straddle', extra=ex, place='horizon_is_window', win=list(w))))
     out.append(('takeperiod_outside', dict(kind='extra', extra='takeperiod', place='after')))
     # a coarse interval straddling the horizon counts with its covered part only (decided with the C13 machinery: option problem vs
     # fine problem + equalities, whose step lengths are the covered fine steps)
     out.append(('coarse_interval_straddles_start', dict(kind='coarse13', opt='coarse', kind13='contract', T=4, win=(-1, 5))))
+    out.append(('coarse_window_ends_inside_unaligned', dict(kind='coarse13', opt='coarse', kind13='contract', T=6, win=(1, 4), ec=True)))
     out.append(('coarse_interval_straddles_end', dict(kind='coarse13', opt='coarse', kind13='contract', T=5, win=(2, 9), ec=True)))
     return out
 
@@ -179,10 +185,32 @@ def build_straddle(D, extra, place, T=4):
     return out[0], out[1], tg, prices
 
 
-def run_straddle(rec, seed, extra, place):
+def build_hwin(D, extra, win, T=5):
+    """the asset with window [k0,k1) on a T-step horizon, and the same asset on the horizon [k0,k1) itself (problems of the asset alone)"""
+    eao = lift.import_eao()
+    tg = shapes.grid(T)
+    nA, nB = shapes.nodes('A', 'B')
+    prices = shapes.prices_for(D, ['p', 'q'], T)
+    k0, k1 = win
+    ex = mk_extra(D, extra, T, tg, nA, nB, win)
+    tg2 = eao.assets.Timegrid(pd.Timestamp(shapes.tstep(tg, k0)).to_pydatetime(), pd.Timestamp(shapes.tstep(tg, k1)).to_pydatetime(), freq=tg.freq, main_time_unit=tg.main_time_unit)
+    ex2 = mk_extra(D, extra, k1 - k0, tg2, nA, nB, (0, k1 - k0))
+    a = ex.setup_optim_problem(prices, tg)
+    b = ex2.setup_optim_problem({k: v[k0:k1] for k, v in prices.items()}, tg2)
+    b.mapping = b.mapping.copy()
+    b.mapping['time_step'] = b.mapping['time_step'] + k0        # steps of the small horizon counted on the large one
+    if 'type' in b.mapping.columns:
+        # the scale variable of a scaled asset is booked at the first step of the HORIZON by design ("assign fix costs to first time step")
+        b.mapping.loc[b.mapping['type'] == 'size', 'time_step'] = 0
+    return a, b
+
+
+def run_straddle(rec, seed, extra, place, win=None):
     from .c10 import compare
 
     def build(D):
+        if place == 'horizon_is_window':
+            return build_hwin(D, extra, tuple(win))
         w, c, tg, prices = build_straddle(D, extra, place)
         return w.setup_optim_problem(prices, tg), c.setup_optim_problem(prices, tg)
     res = lift.explore_build(build, level='A')
@@ -202,7 +230,7 @@ def run_straddle(rec, seed, extra, place):
             continue
         rec.twin(P, base, z3.BoolVal(False))
         goals = compare(rec, P, base, a, b)
-        nm = P + '/wide_window_equals_clipped_window'
+        nm = P + ('/window_on_long_horizon_equals_horizon_equal_to_window' if place == 'horizon_is_window' else '/wide_window_equals_clipped_window')
         if not goals:
             rec.obligations.append(dict(name=nm, verdict='unsat', secs=0, form='Q2'))
             rec.distinct.add(nm)
@@ -404,6 +432,13 @@ def observe(case, kwargs, env, rq):
         fq = kw.get('freq', 'h')
         sc = scen.run(D, 'contract_take', dict(T=4, take=kw['take'], win=kw['win'], freq=tuple(fq) if isinstance(fq, list) else fq, unit=kw.get('unit', 'h')), None, False, env=env)
         return embed_ref.observe(sc.sh, sc.op, env, rq)
+    if kind == 'straddle' and kw.get('place') == 'horizon_is_window':
+        from .. import obs as _obs
+        a, b = build_hwin(D, kw['extra'], tuple(kw['win']))
+        o = dict(wide=_obs.problem_obs(a))
+        if rq.get('kind') == 'replay':
+            o['clipped'] = _obs.problem_obs(b)
+        return o
     if kind == 'straddle':
         w, c, tg, prices = build_straddle(D, kw['extra'], kw['place'])
         a = w.setup_optim_problem(prices, tg)
